@@ -26,6 +26,7 @@ type Translated struct {
 	Slots        []Slot
 	Placeholders int
 	Aliases      map[string]string // real table name -> alias used in the statement
+	Upsert       *Upsert           // non-nil for INSERT ... ON DUPLICATE KEY UPDATE (evaluated by Server.execUpsert)
 	Literals     []Literal         // every literal of the statement as the database would decode it (for stored-form / leak inspection)
 }
 
@@ -308,6 +309,15 @@ func Translate(sql string) (*Translated, error) {
 		}
 	}
 	t.PG = b.String()
+	// convert(<expr>, binary) (Acra's MySQL spelling of the searchable-hash comparison) is the identity on byte strings
+	for i := 0; i < 8 && reConvert.MatchString(t.PG); i++ {
+		t.PG = reConvert.ReplaceAllString(t.PG, "($1)")
+	}
+	u, err := splitUpsert(t.PG)
+	if err != nil {
+		return nil, err
+	}
+	t.Upsert = u
 	return t, nil
 }
 
